@@ -62,13 +62,17 @@ def run(tier):
             if r is None: R.count("capped_" + name); continue
             mreq.append(["mstruct", MI.enc_marker(r)] + eenc); midx.append((name, sa, sb, r))
         mreq.append(["minvert", MI.enc_marker(a)] + eenc); midx.append(("model-invert", sa, sb, out.get("invert")))
+        # level 2: the model's own simplifier on the same operands must produce the same marker (text) with the same truth table
+        for name in ("intersect", "union"):
+            if out.get(name) is not None:
+                mreq.append(["malg", name, MI.enc_marker(a), MI.enc_marker(bm)] + eenc); midx.append(("model-" + name, sa, sb, out[name]))
     for (name, sa, sb, r), res in zip(midx, M.many(mreq)):
         if r is None: continue
         exp = ["ok", str(r)] + [K.b(x) for x in K.truth(r, ienv)]
         if res != exp:
-            if name == "model-invert" and res[:1] == ["ok"] and res[2:] == exp[2:]:
-                R.count("structural_drift_invert")
-                if len(R.notes) < 5: R.notes.append(f"invert({sa}): model text {res[1]!r} implementation {exp[1]!r}")
+            if name.startswith("model-") and res[:1] == ["ok"] and res[2:] == exp[2:]:
+                R.count("structural_drift_" + name)
+                if len(R.notes) < 5: R.notes.append(f"{name}({sa} ; {sb}): model text {res[1]!r} implementation {exp[1]!r}")
             else:
                 R.disagree(f"{name}: model evaluation/text of the result structure", dict(a=sa, b=sb, result=str(r)), res[:6], exp[:6])
     M.close(); F.close()
